@@ -57,6 +57,12 @@ pub fn to_miette_report_with_formatter(
     miette::Report::new(diag)
 }
 
+/// Message and label text can reflect input text (field names, duplicate keys, scalar values):
+/// it gets the same terminal sanitization as the source handed to miette.
+fn sanitized_text(text: impl Into<String>) -> String {
+    sanitize_terminal_snippet_preserve_len(text.into())
+}
+
 #[derive(Clone, Debug)]
 struct ErrorDiagnostic {
     message: String,
@@ -204,7 +210,7 @@ fn build_diagnostic(
             );
 
             ErrorDiagnostic {
-                message: formatter.format_message(err).into_owned(),
+                message: sanitized_text(formatter.format_message(err)),
                 src,
                 labels,
                 related: Vec::new(),
@@ -217,13 +223,13 @@ fn build_diagnostic(
                 && let Some(span) = to_source_span(&src, &loc)
             {
                 labels.push(LabeledSpan::new_with_span(
-                    Some(formatter.format_message(other).into_owned()),
+                    Some(sanitized_text(formatter.format_message(other))),
                     span,
                 ));
             }
 
             ErrorDiagnostic {
-                message: formatter.format_message(other).into_owned(),
+                message: sanitized_text(formatter.format_message(other)),
                 src,
                 labels,
                 related: Vec::new(),
@@ -264,7 +270,9 @@ fn build_validation_entry_diagnostic(
     let def_loc = locs.defined_location;
 
     let resolved_path = format_path_with_resolved_leaf(path_key, &resolved_leaf);
-    let base_msg = format!("validation error: {entry} for `{resolved_path}`");
+    let base_msg = sanitized_text(format!(
+        "validation error: {entry} for `{resolved_path}`"
+    ));
 
     let labels = build_validation_labels(src, ref_loc, def_loc);
 
